@@ -82,6 +82,29 @@ fn one_case<const N: usize>(ctx: &mut Ctx, idx: usize) {
             _ => {}
         }
     }
+    // end to end on the real code alone, judged by the two-pairing oracle (independent of the model): an honest
+    // request is accepted, and the signature obtained on it, unblinded, is a signature on the requester's tuple
+    {
+        use zkchannels_crypto::proofs::{ChallengeBuilder, SignatureRequestProofBuilder};
+        let mut rng = ScriptedRng::new(ctx.prng.gen(), book.clone());
+        let builder = SignatureRequestProofBuilder::<N>::generate_proof_commitments(&mut rng, wire::msg::<N>(&ms), &opts, kp.public_key());
+        let bf = builder.message_blinding_factor();
+        let ch = ChallengeBuilder::new().with(&builder).finish();
+        let proof = builder.generate_proof_response(ch);
+        let ch2 = ChallengeBuilder::new().with(&proof).finish();
+        ctx.evals += 1;
+        match proof.verify_knowledge_of_opening(kp.public_key(), ch2) {
+            None => ctx.violation("an honest signature request is refused", serde_json::json!({"class": "honest-signature-request-rejected", "N": N})),
+            Some(v) => {
+                let sig = v.blind_sign(&kp, &mut rng).unblind(bf);
+                let good = crate::props::c07::oracle(kp.public_key(), &sig, &ms);
+                ctx.count(&format!("end-to-end:request-sign-unblind:{}", if good { "signature-on-the-tuple" } else { "NOT-ON-THE-TUPLE" }));
+                if !good {
+                    ctx.violation("the signature obtained on an honest request, unblinded with the request's blinding factor, is not a signature on the requester's message tuple (pairing oracle)", serde_json::json!({"class": "request-signature-not-on-the-tuple", "N": N, "message": crate::dl::hex_list(&ms)}));
+                }
+            }
+        }
+    }
     let (_proof, pd, w, c) = match srp_honest::<N>(ctx, kp.public_key(), &kpd.pk, &ms, &opts, ChalMode::Derived) {
         Some(x) => x,
         None => return,
